@@ -247,9 +247,9 @@ def run(chk):
     if tree is not None:
         hdr += f"Definition sk_now : dtree := {tree}.\n"
     txt = hdr
-    txt += f"Definition pieces := {cL(pieces)}.\nEval vm_compute in (mism chk_pieces pieces).\n"
-    txt += f"Definition outs := {cL(outs)}.\nEval vm_compute in (mism (chk_out {tree_term}) outs).\n"
-    txt += f"Definition callsz := {cL(calls)}.\nEval vm_compute in (mism (chk_calls {tree_term}) callsz).\n"
+    txt += f"Definition pieces : list (splitter * binputs * nat * list nat) := {cL(pieces)}.\nEval vm_compute in (mism chk_pieces pieces).\n"
+    txt += f"Definition outs : list (binputs * list nat * list nat) := {cL(outs)}.\nEval vm_compute in (mism (chk_out {tree_term}) outs).\n"
+    txt += f"Definition callsz : list (binputs * nat * list nat) := {cL(calls)}.\nEval vm_compute in (mism (chk_calls {tree_term}) callsz).\n"
     ok, evals, err = chk.coq_run("cases", txt)
     if not ok or len(evals) != 3:
         chk.oblige("correspondence batch evaluated in Coq", "correspondence", False, err)
